@@ -136,11 +136,8 @@ func (g *Grammar) EachOneDeep(ty *Ty, yield func(*Term) bool) bool {
 			empty := false
 			for i, pt := range p.Params {
 				if i == pos {
-					for _, t := range g.Terms(pt, 1) {
-						if t.Depth() == 1 {
-							lists[i] = append(lists[i], t)
-						}
-					}
+					// Terms lists the atoms first: everything after them was built by a production
+					lists[i] = g.Terms(pt, 1)[len(g.Atoms[pt.Canon()]):]
 				} else {
 					lists[i] = g.Atoms[pt.Canon()]
 				}
